@@ -19,7 +19,7 @@ def explore(res, rng, n):
     core.import_impl()
     import numpy as np
     from scipy import stats
-    from ffpack import rrm
+    from ffpack import rrm, rpm
     for i in range(n):
         d = rng.choice([1, 2, 2, 3, 4, 5]) if i >= 2 else 3 + i
         mus = [float(rng.randint(-3, 6)) for _ in range(d)]
@@ -32,7 +32,7 @@ def explore(res, rng, n):
         res.stat('corr_identity' if np.allclose(R, np.eye(d)) else ('corr_sparse' if np.any(np.array(R) == 0) else 'corr_dense'))
         Sigma = np.diag(sig) @ R @ np.diag(sig)
         sd = math.sqrt(float(np.array(c) @ Sigma @ np.array(c)))
-        target_beta = rng.choice([-1.5, 0.7, 1.5, 2.5, 3.5])
+        target_beta = rng.choice([-1.5, 0.7, 1.5, 2.5, 3.5, 5.0, 5.5, -6.0])   # beyond ~6 (noise), ~8 (saturation) the ppf(cdf(z)) route of the transformation saturates (upper tail), see DESIGN 7
         dconst = target_beta * sd - float(np.dot(c, mus))
         dconst = round(dconst, 2)
         exact = (float(np.dot(c, mus)) + dconst) / sd
@@ -52,6 +52,9 @@ def explore(res, rng, n):
             outs['hlrf_numgrad'] = rrm.hlrfFORM(d, g, None, dists, R.tolist())
             outs['hlrf_7g'] = rrm.hlrfFORM(d, lambda X: 7 * g(X), [(lambda X, k=k: 7 * c[k]) for k in range(d)], dists, R.tolist())
             outs['copt'] = rrm.coptFORM(d, g, dists, R.tolist())
+            # non-default iteration controls: on a linear-Gaussian problem one HL-RF step is already exact
+            outs['hlrf_iter1'] = rrm.hlrfFORM(d, g, dg, dists, R.tolist(), iter=1)
+            outs['hlrf_loose_tol'] = rrm.hlrfFORM(d, g, dg, dists, R.tolist(), tol=1e-1)
         except Exception as e:  # noqa
             fail(res, 'FORM raised on a linear-Gaussian problem', case, repr(e)[:200])
             continue
@@ -64,8 +67,12 @@ def explore(res, rng, n):
                 fail(res, f'{nm}: design point not on the limit state', case, {'g(x*)': g(x)})
             if abs(abs(beta) - float(np.linalg.norm(u))) > tol * (1 + abs(beta)):
                 fail(res, f'{nm}: |beta| != |u*|', case, {'beta': beta, 'norm_u': float(np.linalg.norm(u))})
-            if abs(pf - stats.norm.cdf(-beta)) > 1e-12:
+            if abs(pf - stats.norm.cdf(-beta)) > 1e-12 * stats.norm.cdf(-beta) + 1e-300:
                 fail(res, f'{nm}: pf != Phi(-beta)', case, [pf, float(stats.norm.cdf(-beta))])
+            if nm != 'hlrf':
+                natk = rpm.NatafTransformation(dists, R.tolist())
+                if not np.allclose(natk.getX(u)[0], x, rtol=1e-9, atol=1e-9):
+                    fail(res, f'{nm}: x* is not the Nataf image of u*', case, {'x': np.array(x).tolist(), 'T(u)': natk.getX(u)[0].tolist()})
         if np.allclose(R, np.eye(d)):
             bf, pff = rrm.mvalFOSM(d, g, dg, mus, sig)
             bn, _ = rrm.mvalFOSM(d, g, None, mus, sig)
